@@ -20,7 +20,10 @@ RULE = ("case = a generated 3D mesh and TWO plotfiles on it with independently d
         "bit-identical to the two source boxes with the same index range, min/max rows assembled from the sources, "
         "taste accepts. Negative arm: second input with another level count / a box removed / a box moved / the same "
         "boxes in another header order: an exception and no write-effect in the audit log (for the reordered case a "
-        "correct result is accepted too). non-trivial = layouts differ between the inputs or one is multi-file/"
+        "correct result is accepted too). Fault arm (an eighth of the positive cases): one binary file of one input is "
+        "unreadable part-way - combine may fail, an output it returns normally with is judged like any other. Histories: "
+        "the same request served before on twins at the same paths, or in another run directory with relative names "
+        "under FORK pools. non-trivial = layouts differ between the inputs or one is multi-file/"
         "non-monotone, or a selection is used; distinct = hash(worlds, selections, form, schedules)")
 ASSUMPTIONS = ["independent reader/model is the oracle"]
 
